@@ -16,6 +16,11 @@ import OFV.Proofs.C07Hop
 import OFV.Proofs.C07DCp
 import OFV.Proofs.C07DoubleComm
 import OFV.Proofs.C07DCMain
+import OFV.Proofs.C07TermInfo
+import OFV.Proofs.C07BCH8
+import OFV.Proofs.C07BCHExp
+import OFV.Proofs.C07BCHUniv
+import OFV.Proofs.C07BCHMulti
 
 namespace OFV.C07
 open OFV OFV.Spec OFV.Spec.C07 OFV.Model OFV.Model.C07 OFV.Proofs.C07 OFV.Proofs.C07F
@@ -270,6 +275,109 @@ theorem bch_exact_upto_6_partial (k : Nat) (hk : k ≤ 6) :
     Spec.BCH.check k (generateNestedCommutator k) = true := by
   have : k = 0 ∨ k = 1 ∨ k = 2 ∨ k = 3 ∨ k = 4 ∨ k = 5 ∨ k = 6 := by omega
   rcases this with rfl | rfl | rfl | rfl | rfl | rfl | rfl <;> decide +kernel
+
+/-- the same for the orders 7 and 8 (the range the harness exercises): `bch_expand` truncated at any
+order `k ≤ 8` is exact on the free nilpotent algebra of class `k`. -/
+theorem bch_exact_upto_8_partial (k : Nat) (hk : k ≤ 8) :
+    Spec.BCH.check k (generateNestedCommutator k) = true := by
+  by_cases h6 : k ≤ 6
+  · exact bch_exact_upto_6_partial k h6
+  · have : k = 7 ∨ k = 8 := by omega
+    rcases this with rfl | rfl
+    · exact Proofs.C07.bch_check_7
+    · exact Proofs.C07.bch_check_8
+
+/-- Dynkin-style nested commutator `'010…' ↦ [x, [y, [x, …]]]` in a ring (`false = x`, `true = y`) -/
+def nestedComm {A : Type} [Ring A] (x y : A) : List Bool → A
+  | [] => 1
+  | [g] => if g then y else x
+  | g :: r => (if g then y else x) * nestedComm x y r - nestedComm x y r * (if g then y else x)
+
+/-- **`bch_universal_upto_8`** — the BCH table in EVERY nilpotent setting, not only the free one.  Let `A`
+be any ℚ-algebra and `x, y ∈ A` such that every product of more than `k` factors from `{x, y}` vanishes
+(`k ≤ 8`).  With the coefficient table `_generate_nested_commutator(k)` of the Model (exact rationals),
+`z = Σ coeff · nested commutator` — the value `_bch_expand_two_terms(x, y, order=k)` computes — satisfies
+`exp z = exp x · exp y`, where `exp t = Σ_{j ≤ k} t^j / j!` (all three series terminate there).
+This is the universal property of the free nilpotent algebra, formalised for the list representation of
+the Spec (`Proofs.C07U`): evaluation at `(x, y)` is additive and, modulo words longer than `k`,
+multiplicative. -/
+theorem bch_universal_upto_8 (k : Nat) (hk : k ≤ 8) {A : Type} [Ring A] [Algebra ℚ A] (x y : A)
+    (hnil : ∀ w : List Bool, k < w.length → (w.map fun g => if g then y else x).prod = 0) :
+    (∑ j ∈ Finset.range (k + 1), ((j.factorial : ℚ)⁻¹) •
+        (((generateNestedCommutator k).map fun tc => (tc.2 : ℚ) • nestedComm x y tc.1).sum) ^ j) =
+      (∑ j ∈ Finset.range (k + 1), ((j.factorial : ℚ)⁻¹) • x ^ j) *
+        (∑ j ∈ Finset.range (k + 1), ((j.factorial : ℚ)⁻¹) • y ^ j) := by
+  have hn : Proofs.C07U.Nil x y k := by
+    intro w hw; rw [Proofs.C07U.wordEval_eq]; exact hnil w hw
+  have hnest : ∀ w, nestedComm x y w = Proofs.C07U.nestedA x y w := by
+    intro w
+    induction w with
+    | nil => rfl
+    | cons g r ih =>
+      cases r with
+      | nil => rfl
+      | cons g' r' => simp only [nestedComm, Proofs.C07U.nestedA, Proofs.C07U.gen, ih]
+  have h := Proofs.C07U.check_universal x y k (generateNestedCommutator k) (bch_exact_upto_8_partial k hk)
+    (Proofs.C07.expXexpY_split k hk) hn
+  simp only [Proofs.C07U.expT_eq] at h
+  simpa only [hnest] using h
+
+/-- `Σ_{j ≤ k} t^j / j!` -/
+noncomputable def expTrunc {A : Type} [Ring A] [Algebra ℚ A] (k : Nat) (t : A) : A :=
+  ∑ j ∈ Finset.range (k + 1), ((j.factorial : ℚ)⁻¹) • t ^ j
+
+/-- what `_bch_expand_two_terms(x, y, order=k)` denotes: `Σ coeff · nested commutator` over the table -/
+def bchTwo {A : Type} [Ring A] [Algebra ℚ A] (k : Nat) (x y : A) : A :=
+  ((generateNestedCommutator k).map fun tc => (tc.2 : ℚ) • nestedComm x y tc.1).sum
+
+/-- what `_bch_expand_multiple_terms` denotes along its bracketing tree -/
+def bchMany {A : Type} [Ring A] [Algebra ℚ A] (k : Nat) (xs : Nat → A) : BTree → A
+  | .leaf i => xs i
+  | .node l r => bchTwo k (bchMany k xs l) (bchMany k xs r)
+
+/-- **`bch_expand` with any number of operators** (`order = k ≤ 8`).  Let `A` be a ℚ-algebra with a
+multiplicative filtration `F 1 ⊇ F 2 ⊇ …`, `F i · F j ⊆ F (i + j)`, `F (k + 1) = 0` (e.g. strictly upper
+triangular matrices; polynomials in a small parameter modulo `ε^{k+1}`), and `x_0, …, x_{n-1} ∈ F 1`,
+`n ≥ 1`.  Then `z = bch_expand(x_0, …, x_{n-1}, order=k)` — the recursive halving
+`ops[: n // 2]`, `ops[n // 2 :]` with the two-operator table at every node — lies in `F 1` and satisfies
+`exp z = exp x_0 · exp x_1 ⋯ exp x_{n-1}` (in this order). -/
+theorem bch_expand_sound_upto_8 (k : Nat) (hk : k ≤ 8) {A : Type} [Ring A] [Algebra ℚ A]
+    (F : Nat → Submodule ℚ A) (anti : ∀ i, F (i + 1) ≤ F i)
+    (mul : ∀ i j a b, a ∈ F i → b ∈ F j → a * b ∈ F (i + j)) (top : ∀ a ∈ F (k + 1), a = 0)
+    (n : Nat) (hn : 1 ≤ n) (xs : Nat → A) (hx : ∀ i, i < n → xs i ∈ F 1) :
+    bchMany k xs (splitTree n 0 n) ∈ F 1 ∧
+    expTrunc k (bchMany k xs (splitTree n 0 n)) = ((List.range n).map fun i => expTrunc k (xs i)).prod := by
+  have hnest : ∀ (x y : A) w, nestedComm x y w = Proofs.C07U.nestedA x y w := by
+    intro x y w
+    induction w with
+    | nil => rfl
+    | cons g r ih =>
+      cases r with
+      | nil => rfl
+      | cons g' r' => simp only [nestedComm, Proofs.C07U.nestedA, Proofs.C07U.gen, ih]
+  have htwo : ∀ x y : A, bchTwo k x y = Proofs.C07U.bch2 k x y := by
+    intro x y; simp only [bchTwo, Proofs.C07U.bch2, hnest]
+  have hmany : ∀ t, bchMany k xs t = Proofs.C07U.bchTree k xs t := by
+    intro t
+    induction t with
+    | leaf i => rfl
+    | node l r ihl ihr => simp only [bchMany, Proofs.C07U.bchTree, htwo, ihl, ihr]
+  have hexp : ∀ t : A, expTrunc k t = Proofs.C07U.expT k t := by
+    intro t; rw [Proofs.C07U.expT_eq]; rfl
+  have h2 : ∀ x y : A, Proofs.C07U.Nil x y k →
+      Proofs.C07U.expT k (Proofs.C07U.bch2 k x y) = Proofs.C07U.expT k x * Proofs.C07U.expT k y := by
+    intro x y hnil
+    exact Proofs.C07U.check_universal x y k (generateNestedCommutator k) (bch_exact_upto_8_partial k hk)
+      (Proofs.C07.expXexpY_split k hk) hnil
+  have hl : leaves (splitTree n 0 n) = List.range n := by
+    rw [splitTree_leaves n 0 n hn (Nat.le_refl _), List.range_eq_range']
+  obtain ⟨hm, he⟩ := Proofs.C07U.bchTree_sound ⟨F, anti, mul, top⟩ h2 xs (splitTree n 0 n) (by
+    intro i hi
+    rw [hl] at hi
+    exact hx i (List.mem_range.mp hi))
+  refine ⟨by rw [hmany]; exact hm, ?_⟩
+  rw [hmany, hexp, he, hl]
+  simp only [hexp]
 
 /-- the check is not vacuous: doubling the third-order coefficients breaks it -/
 example : Spec.BCH.check 3 ((generateNestedCommutator 3).map fun tc =>
@@ -527,6 +635,68 @@ theorem dc_commutator_sound (tol : Rat) (a b prior : List (List (Nat × Nat) × 
         (Proofs.C03.fockInterp.evalOp a * Proofs.C03.fockInterp.evalOp b -
           Proofs.C03.fockInterp.evalOp b * Proofs.C03.fockInterp.evalOp a) :=
   dc_commutator_sound_ring Proofs.C03.fockInterp fock_CARRel Proofs.C07D.fock_ι_mul tol a b prior ha hb
+
+/-- **outside the contract** ("Still compute the commutator, but warn the user"): if the terms of
+`operator_a` are merely identity / one-body / normal-ordered two-body terms — NOT necessarily diagonal —
+the pairs (non-diagonal two-body, two-body) go through the fallback
+`additional = normal_ordered(c·t_a t_b - c·t_b t_a); prior_terms += additional`.  In the exact regime
+(tolerance 0: no pruning in `normal_ordered` and `+=`) the function still denotes `prior + [A, B]`
+in every ring with the anticommutation relations. -/
+theorem dc_commutator_fallback_sound_ring {A : Type} [Ring A] (I : Proofs.C03.Interp A) (h : CARRel I)
+    (hmul : ∀ x y, I.ι (x * y) = I.ι x * I.ι y) (a b prior : List (List (Nat × Nat) × GQ))
+    (ha : ∀ e ∈ a, ContractB e.1) (hb : ∀ e ∈ b, ContractB e.1) :
+    I.evalOp (dcCommutator 0 a b prior) =
+      I.evalOp prior + (I.evalOp a * I.evalOp b - I.evalOp b * I.evalOp a) :=
+  Proofs.C07R.dcCommutator_eval0 h.car hmul a b ha hb prior
+
+/-- the same on Fock space for the tolerance the code uses, in the exact regime (hypothesis: pruning
+with that tolerance changes nothing; an executable condition). -/
+theorem dc_commutator_fallback_sound (tol : Rat) (a b prior : List (List (Nat × Nat) × GQ))
+    (ha : ∀ e ∈ a, ContractB e.1) (hb : ∀ e ∈ b, ContractB e.1)
+    (hexact : dcCommutator tol a b prior = dcCommutator 0 a b prior) :
+    Proofs.C03.fockInterp.evalOp (dcCommutator tol a b prior) =
+      Proofs.C03.fockInterp.evalOp prior +
+        (Proofs.C03.fockInterp.evalOp a * Proofs.C03.fockInterp.evalOp b -
+          Proofs.C03.fockInterp.evalOp b * Proofs.C03.fockInterp.evalOp a) := by
+  rw [hexact]
+  exact dc_commutator_fallback_sound_ring Proofs.C03.fockInterp fock_CARRel Proofs.C07D.fock_ι_mul a b prior ha hb
+
+/-! ### `trivially_double_commutes_dual_basis_using_term_info` -/
+
+/-- **`term_info_sound`, ring form.**  Let `α`, `β`, `α'` be grouped terms of the dual-basis Hamiltonian
+(`Spec.C07.DualGroup`: hopping group `t (i^ j + j^ i)`, number group `w i^ j^ i j + c_i i^ i + c_j j^ j`
+on two distinct modes, or external-potential term `c_i i^ i` on one mode; arbitrary coefficients),
+described to the function by their index sets `idx` and hopping flags exactly as
+`low_depth_second_order_trotter_error_operator` does (both settings of `external_potential_at_end`).
+If `jellium_only` is passed as `True` only when the number groups among `β`, `α'` have `c_i = c_j`
+(the promise in the docstring), then a `True` answer implies `[α, [β, α']] = 0` in every ring with the
+anticommutation relations.  All three reasons the function gives are covered: two number groups; the
+jellium rule (`|indices_β ∩ indices_α'| ≠ 1`, i.e. disjoint or the same pair of modes); `α` disjoint
+from `β` and `α'`. -/
+theorem term_info_sound_ring {A : Type} [Ring A] (I : Proofs.C03.Interp A) (h : CARRel I)
+    (a b c : DualGroup) (jellium : Bool) (ha : a.WF) (hb : b.WF) (hc : c.WF)
+    (hj : jellium = true → (b.hop = false → b.ci = b.cj) ∧ (c.hop = false → c.ci = c.cj))
+    (hT : triviallyDoubleCommutesTermInfo a.idx b.idx c.idx a.hop b.hop c.hop jellium = true) :
+    I.evalOp a.op * (I.evalOp b.op * I.evalOp c.op - I.evalOp c.op * I.evalOp b.op) -
+      (I.evalOp b.op * I.evalOp c.op - I.evalOp c.op * I.evalOp b.op) * I.evalOp a.op = 0 := by
+  rw [Proofs.C07R.grp_evalOp h.car a ha, Proofs.C07R.grp_evalOp h.car b hb, Proofs.C07R.grp_evalOp h.car c hc]
+  exact Proofs.C07R.termInfo_sound h.car a b c jellium hb hc hj hT
+
+/-- `term_info_sound` on the Fock space of the Spec. -/
+theorem term_info_sound (a b c : DualGroup) (jellium : Bool) (ha : a.WF) (hb : b.WF) (hc : c.WF)
+    (hj : jellium = true → (b.hop = false → b.ci = b.cj) ∧ (c.hop = false → c.ci = c.cj))
+    (hT : triviallyDoubleCommutesTermInfo a.idx b.idx c.idx a.hop b.hop c.hop jellium = true) :
+    Proofs.C03.fockInterp.evalOp a.op *
+        (Proofs.C03.fockInterp.evalOp b.op * Proofs.C03.fockInterp.evalOp c.op -
+          Proofs.C03.fockInterp.evalOp c.op * Proofs.C03.fockInterp.evalOp b.op) -
+      (Proofs.C03.fockInterp.evalOp b.op * Proofs.C03.fockInterp.evalOp c.op -
+          Proofs.C03.fockInterp.evalOp c.op * Proofs.C03.fockInterp.evalOp b.op) *
+        Proofs.C03.fockInterp.evalOp a.op = 0 :=
+  term_info_sound_ring Proofs.C03.fockInterp fock_CARRel a b c jellium ha hb hc hj hT
+
+/-- the jellium promise matters: with `jellium_only = True` the function answers `True` for a hopping
+and a number group on the same pair of modes whatever `c_i`, `c_j` are (kernel-checked instance). -/
+example : triviallyDoubleCommutesTermInfo [1, 0] [1, 0] [1, 0] true true false true = true := by decide
 
 /-! ### `double_commutator`, generic path -/
 
